@@ -165,7 +165,7 @@ pub fn gen_c11(rng: &mut Rng, thorough: bool, run_index: u64) -> LspTrace {
         let e = match rng.below(20) {
             0 if allow_restart => Event::Restart,
             1 if allow_dup => Event::DupPrev,
-            2 => Event::UnknownNotification { method: "textDocument/didClose".into(), uri: rng.pick(&uris).to_string() },
+            2 => Event::UnknownNotification { method: "textDocument/didClose".into(), uri: rng.pick(&uris).to_string(), refers_to: None },
             _ => gen_edit_event(rng, &texts, &uris, &mut counter, allow_multi),
         };
         events.push(e);
@@ -195,7 +195,20 @@ pub fn gen_c12(rng: &mut Rng, _thorough: bool) -> LspTrace {
     for _ in 0..len {
         let e = match rng.below(12) {
             0 | 1 if en_unknown_req => Event::UnknownRequest { method: rng.pick(UNKNOWN_REQUESTS).to_string(), uri: rng.pick(&uris).to_string(), id_kind: if rng.chance(1, 2) { 0 } else { rng.below(6) as u8 } },
-            2 | 3 if en_unknown_notif => Event::UnknownNotification { method: rng.pick(UNKNOWN_NOTIFICATIONS).to_string(), uri: rng.pick(&uris).to_string() },
+            2 | 3 if en_unknown_notif => {
+                let method = rng.pick(UNKNOWN_NOTIFICATIONS).to_string();
+                // a cancel usually names a request that was really sent earlier in this session
+                let earlier: Vec<(usize, u8)> = events
+                    .iter()
+                    .enumerate()
+                    .filter_map(|(i, e): (usize, &Event)| match e {
+                        Event::SemTok { id_kind, .. } | Event::UnknownRequest { id_kind, .. } => Some((i, *id_kind)),
+                        _ => None,
+                    })
+                    .collect();
+                let refers_to = if method == "$/cancelRequest" && !earlier.is_empty() && rng.chance(3, 4) { Some(*rng.pick(&earlier)) } else { None };
+                Event::UnknownNotification { method, uri: rng.pick(&uris).to_string(), refers_to }
+            }
             4 if en_client_resp => Event::ClientResponse { id: rng.below(5) as i32, error: rng.chance(1, 2) },
             5 if en_dup => Event::DupPrev,
             6 | 7 if en_semtok => Event::SemTok { uri: rng.pick(&uris).to_string(), id_kind: if rng.chance(1, 2) { 0 } else { rng.below(6) as u8 } },
@@ -237,6 +250,14 @@ fn with_trivia(rng: &mut Rng, text: &str) -> String {
     }
     if rng.chance(1, 4) {
         out = out.replace('\n', "\r\n");
+    }
+    // rarely: a character that looks blank but is not layout (vertical tab, bare CR as left by an
+    // edit that splits a CRLF, no-break space, ideographic space) after the last declaration
+    if rng.chance(1, 12) {
+        out.push(*rng.pick(&['\u{b}', '\r', '\u{a0}', '\u{3000}']));
+        if rng.chance(1, 2) {
+            out.push('\n');
+        }
     }
     out
 }
@@ -868,7 +889,41 @@ fn check_tokens(text: &str, data: &[u64], legend: &[String]) -> Result<usize, (S
         }
         spelling_types.insert(key, ty);
     }
+    // completeness, for the classes the statement names and this oracle can recognise on its own:
+    // every identifier, comment and punctuation operator of the document is reported
+    for (offset, (tok, hit)) in &reference {
+        if *hit {
+            continue;
+        }
+        let t = &tok.text;
+        let must = t.starts_with("(*")
+            || matches!(tok.token_type, ironplc_parser::token::TokenType::Identifier)
+            || matches!(t.as_str(), "+" | "-" | "*" | "/" | "**" | ":=" | "=" | "<>" | "<" | ">" | "<=" | ">=");
+        if must {
+            return Err(("lexeme-missing".into(), format!("the {} {t:?} at offset {offset} is not reported", if t.starts_with("(*") { "comment" } else if t.chars().next().map(|c| c.is_alphabetic() || c == '_').unwrap_or(false) { "identifier" } else { "operator" })));
+        }
+    }
     Ok(data.len() / 5)
+}
+
+/// Independent of the repository's lexer: text that ends (after the last declaration) in a
+/// character that is neither a token nor layout in IEC 61131-3 cannot be valid.
+fn strip_trailing_layout(text: &str) -> &str {
+    let mut t = text;
+    loop {
+        if let Some(rest) = t.strip_suffix("\r\n") {
+            t = rest;
+        } else if let Some(rest) = t.strip_suffix([' ', '\t', '\n']) {
+            t = rest;
+        } else {
+            return t;
+        }
+    }
+}
+
+fn ends_in_invalid_blank(text: &str) -> bool {
+    // a CR is layout only as part of CR LF
+    strip_trailing_layout(text).ends_with(['\u{b}', '\r', '\u{a0}', '\u{3000}', '\u{1}'])
 }
 
 fn fresh_server_tokens(uri: &str, text: &str, seed: u64) -> Result<Value, String> {
@@ -925,11 +980,18 @@ fn oracle_c15(t: &LspTrace, h: &History, stats: &mut Stats) -> Vec<Violation> {
                 }
                 continue;
             };
+            let result = resp.get("result").cloned().unwrap_or(Value::Null);
+            if ends_in_invalid_blank(&text) {
+                stats.count("c15.invalid_blank_documents");
+                if !result.is_null() {
+                    out.push(viol("C15", "C15/list-for-invalid-blank-text".into(), format!("the current text of {sym} ends in {:?}, which is neither a token nor layout, but the result is {}", strip_trailing_layout(&text).chars().last(), short(&result))));
+                }
+                continue;
+            }
             if !text.is_ascii() {
                 continue;
             }
             let (_, lex) = tokenize_program(&text, &FileId::default(), &ParseOptions::default());
-            let result = resp.get("result").cloned().unwrap_or(Value::Null);
             if !lex.is_empty() {
                 stats.count("c15.lexical_error_documents");
                 if !result.is_null() {
